@@ -374,3 +374,111 @@ func (p *Prog) Has(fn *ssa.Function, sel Sel) bool {
 func (p *Prog) HasCall(fn *ssa.Function, m Matcher) bool {
 	return fn != nil && p.Locate(fn, CallSel(m)) != nil
 }
+
+// SwitchCoverageLifted is SwitchCoverage that also looks into repo helpers
+// (to the lifting depth) that receive the subject as an argument: the
+// comparisons of the corresponding parameter inside the helper count.
+func (p *Prog) SwitchCoverageLifted(fn *ssa.Function, isSubject func(ssa.Value) bool) map[int64]bool {
+	out := map[int64]bool{}
+	var visit func(f *ssa.Function, subj func(ssa.Value) bool, d int)
+	visit = func(f *ssa.Function, subj func(ssa.Value) bool, d int) {
+		for k := range SwitchCoverage(f, subj) {
+			out[k] = true
+		}
+		if d == 0 {
+			return
+		}
+		for _, call := range CallsIn(f, nil) {
+			h := StaticCallee(call)
+			if h == nil || h.Blocks == nil || !p.InRepo(h) || h == f {
+				continue
+			}
+			args := call.Common().Args
+			for i, a := range args {
+				if i < len(h.Params) && subj(a) {
+					par := h.Params[i]
+					visit(h, func(v ssa.Value) bool {
+						if isSubject(v) {
+							return true
+						}
+						for j := 0; j < 4; j++ {
+							if v == ssa.Value(par) {
+								return true
+							}
+							switch x := v.(type) {
+							case *ssa.Convert:
+								v = x.X
+							case *ssa.ChangeType:
+								v = x.X
+							default:
+								return false
+							}
+						}
+						return false
+					}, d-1)
+				}
+			}
+		}
+	}
+	visit(fn, isSubject, liftDepth)
+	return out
+}
+
+// Lifted is an instruction found in fn or, through the chain of call sites
+// Via (outermost first), in a repo helper fn calls.
+type Lifted struct {
+	In  ssa.Instruction
+	Via []ssa.CallInstruction
+}
+
+// Facts: the branch facts at the instruction plus those at every call site on the way to it.
+func (l Lifted) Facts() []Fact {
+	out := FactsAtInstr(l.In)
+	for _, v := range l.Via {
+		out = append(out, FactsAtInstr(v.(ssa.Instruction))...)
+	}
+	return out
+}
+
+// Call returns the instruction as a call (nil if it is not one).
+func (l Lifted) Call() ssa.CallInstruction {
+	c, _ := l.In.(ssa.CallInstruction)
+	return c
+}
+
+// FindLifted returns the instructions matching sel in fn; when fn itself has
+// none, those in the repo helpers it calls (static callees, to the lifting
+// depth), one entry per call chain.
+func (p *Prog) FindLifted(fn *ssa.Function, sel Sel) []Lifted {
+	var out []Lifted
+	for _, in := range InstrsIn(fn, sel) {
+		out = append(out, Lifted{In: in})
+	}
+	if len(out) > 0 || fn == nil {
+		return out
+	}
+	var walk func(f *ssa.Function, via []ssa.CallInstruction, d int, onPath map[*ssa.Function]bool)
+	walk = func(f *ssa.Function, via []ssa.CallInstruction, d int, onPath map[*ssa.Function]bool) {
+		for _, call := range CallsIn(f, nil) {
+			if _, isGo := call.(*ssa.Go); isGo {
+				continue
+			}
+			h := StaticCallee(call)
+			if h == nil || h.Blocks == nil || !p.InRepo(h) || onPath[h] {
+				continue
+			}
+			chain := append(append([]ssa.CallInstruction{}, via...), call)
+			found := InstrsIn(h, sel)
+			for _, in := range found {
+				out = append(out, Lifted{In: in, Via: chain})
+			}
+			if len(found) == 0 && d > 1 {
+				onPath[h] = true
+				walk(h, chain, d-1, onPath)
+				delete(onPath, h)
+			}
+		}
+	}
+	walk(fn, nil, liftDepth, map[*ssa.Function]bool{fn: true})
+	return out
+}
